@@ -56,9 +56,20 @@ def gen_case(rnd, idx):
     search = dirlist() if rnd.random() < 0.6 else None
     env = dirlist() if rnd.random() < 0.6 else None
     main = ["int m0 = 0;"]
+    if rnd.random() < 0.12:
+        # two files whose names collide by suffix, included one after the other (also the same file twice)
+        d = rnd.choice(DIRS)
+        files[f"{d}/lib/a.inc"] = "int lib_a = 1;\n"
+        files[f"{d}/a.inc"] = "int top_a = 2;\n"
+        if search is None or d not in search:
+            search = [d] + (search or [])
+        main += rnd.choice([['include "lib/a.inc";', 'include "a.inc";'], ['include "a.inc";', 'include "lib/a.inc";'],
+                            ['include "lib/a.inc";', 'include "lib/a.inc";']])
     for _ in range(rnd.randint(1, 3)):
         r = rnd.random()
         n = rnd.choice(NAMES)
+        if rnd.random() < 0.15:
+            main.append(f"@note {rnd.randint(1, 9)}")          # an annotation pending when the next statement is an include
         if r < 0.55:
             main.append(f'include "{n}";')
         elif r < 0.7:
